@@ -647,7 +647,7 @@ def run(tier, pid="C13"):
     if not quick:
         mc["suite"] += ["cs_mc3.cfg", "cs_mc4.cfg", "cs_mc13.cfg"]
         mc["stream"] += ["css_mc3.cfg", "css_mc4.cfg", "css_mc13.cfg", "css_mcSh3.cfg"]
-    nsim = 150 if quick else 1000
+    nsim = 100 if quick else 1000
     jobs = {}
     for v in ("suite", "stream"):
         mod, _, pre = CFG[v]
@@ -690,7 +690,7 @@ def run(tier, pid="C13"):
                           expected="no worker alive when run() returns", observed=ex.alive())
 
     sys_counts = []
-    cap = 600 if quick else 1000
+    cap = 350 if quick else 1000
     for variant, script, mf, ia, cf, bound in systematic_scenarios(tier):
         exr = S.Explorer(bound, max_executions=cap if (len(script) < 3 or not quick) else cap // 2)
         while exr.more():
@@ -705,7 +705,7 @@ def run(tier, pid="C13"):
         if len(rep.violations) >= 3:
             break
     rng = random.Random(rep.seed * 104729 + 13)
-    nrand = 300 if quick else 4000
+    nrand = 250 if quick else 4000
     for j in range(nrand):
         if len(rep.violations) >= 3:
             break
